@@ -840,8 +840,170 @@ fn run_count_boundary(r: &Report) {
     r.counters.add("count_boundary_ways", 7);
 }
 
+/// RowWriter compositions: every order of {one cell, append a pre-serialized list of n cells (n = 0..3)} with at most
+/// three cells and three appends, plus boundary sums around 65535, through `RowWriter` directly and through
+/// `SerializedValues::from_closure`. Reported count == encoded cells == what was bound; refusal only above 65535.
+fn run_writer_compositions(r: &Report) {
+    use scylla_cql_core::frame::response::result::NativeType;
+    use scylla_cql_core::serialize::writers::RowWriter;
+    let int_ct = ColumnType::Native(NativeType::Int);
+    let make_sv = |n: usize, base: i32| {
+        let mut sv = SerializedValues::new();
+        for i in 0..n {
+            sv.add_value(&(base + i as i32), &int_ct).expect("pre-serialized list");
+        }
+        sv
+    };
+    // op: None = one cell through make_cell_writer, Some(n) = append_serialize_row of an n-cell list
+    type Op = Option<usize>;
+    fn count_cells(mut b: &[u8]) -> Option<usize> {
+        let mut n = 0;
+        while !b.is_empty() {
+            if b.len() < 4 {
+                return None;
+            }
+            let l = i32::from_be_bytes([b[0], b[1], b[2], b[3]]);
+            b = &b[4..];
+            if l >= 0 {
+                if b.len() < l as usize {
+                    return None;
+                }
+                b = &b[l as usize..];
+            }
+            n += 1;
+        }
+        Some(n)
+    }
+    let apply = |w: &mut RowWriter, ops: &[Op], pre: &[SerializedValues]| {
+        for (i, op) in ops.iter().enumerate() {
+            match op {
+                None => {
+                    w.make_cell_writer().set_value(&(i as i32).to_be_bytes()).unwrap();
+                }
+                Some(n) => w.append_serialize_row(&pre[*n]),
+            }
+        }
+    };
+    let check = |ops: &[Op], pre: &[SerializedValues], label: &str| {
+        let bound: usize = ops.iter().map(|o| o.map(|n| pre[n].element_count() as usize).unwrap_or(1)).sum();
+        let case = || json!({"leg": "rows", "part": "writer-compositions", "ops": ops.iter().map(|o| match o { None => "cell".to_string(), Some(n) => format!("append({})", pre[*n].element_count()) }).collect::<Vec<_>>()});
+        // RowWriter directly
+        r.eval(1);
+        let direct = catch(AssertUnwindSafe(|| {
+            let mut buf = Vec::new();
+            let mut w = RowWriter::new(&mut buf);
+            apply(&mut w, ops, pre);
+            let vc = w.value_count();
+            (vc, count_cells(&buf))
+        }));
+        match direct {
+            Err(p) => r.violation(&format!("rows:writer:panic:{label}"), &format!("RowWriter composition panicked: {p}"), case()),
+            Ok((vc, cells)) => {
+                if cells != Some(bound) || vc != bound {
+                    r.violation(&format!("rows:writer:count-vs-cells:RowWriter:{label}"), &format!("RowWriter: {bound} values bound, value_count()={vc}, encoded cells={cells:?}"), case());
+                } else {
+                    r.nontrivial(1);
+                }
+            }
+        }
+        // through from_closure
+        r.eval(1);
+        let res = catch(AssertUnwindSafe(|| {
+            SerializedValues::from_closure(|w| {
+                apply(w, ops, pre);
+                Ok(())
+            })
+            .map(|(sv, ())| sv)
+        }));
+        match res {
+            Err(p) => r.violation(&format!("rows:writer:panic:{label}"), &format!("from_closure composition panicked: {p}"), case()),
+            Ok(Err(e)) => {
+                if bound <= 65535 {
+                    r.violation(&format!("rows:writer:refused-within-limit:{label}"), &format!("{bound} values through from_closure refused: {e}"), case());
+                } else {
+                    r.nontrivial(1);
+                }
+            }
+            Ok(Ok(sv)) => {
+                let rb = catch(AssertUnwindSafe(|| {
+                    let mut buf = Vec::new();
+                    sv.write_to_request(&mut buf);
+                    (sv.element_count() as usize, sv.iter().count(), u16::from_be_bytes([buf[0], buf[1]]) as usize)
+                }));
+                match rb {
+                    Err(p) => r.violation(&format!("rows:writer:list-corrupted:{label}"), &format!("reading the list back panicked: {p}"), case()),
+                    Ok((count, cells, on_wire)) => {
+                        if count != cells || cells != bound || on_wire != cells {
+                            r.violation(
+                                &format!("rows:writer:count-vs-cells:from_closure:{label}"),
+                                &format!("{bound} values bound through from_closure were accepted: element_count()={count}, count written to the request={on_wire}, encoded cells={cells}"),
+                                case(),
+                            );
+                        } else {
+                            r.nontrivial(1);
+                        }
+                    }
+                }
+            }
+        }
+    };
+    // small compositions: all orders, <= 3 cells and <= 3 appends, appended lists of 0..3 cells
+    let pre_small: Vec<SerializedValues> = (0..4).map(|n| make_sv(n, 100 * n as i32)).collect();
+    let alphabet: [Op; 5] = [None, Some(0), Some(1), Some(2), Some(3)];
+    let mut seqs: Vec<Vec<Op>> = vec![vec![]];
+    let mut layer: Vec<Vec<Op>> = vec![vec![]];
+    for _ in 0..6 {
+        let mut next = Vec::new();
+        for p in &layer {
+            for a in alphabet {
+                let mut q = p.clone();
+                q.push(a);
+                if q.iter().filter(|o| o.is_none()).count() <= 3 && q.iter().filter(|o| o.is_some()).count() <= 3 {
+                    next.push(q);
+                }
+            }
+        }
+        seqs.extend(next.iter().cloned());
+        layer = next;
+    }
+    r.counters.add("writer_small_compositions", seqs.len() as u64);
+    for ops in &seqs {
+        check(ops, &pre_small, "small");
+    }
+    // boundary sums around 65535
+    let pre_big: Vec<SerializedValues> = [40000usize, 25535, 25536, 65535, 65534, 1, 0].iter().map(|n| make_sv(*n, 0)).collect();
+    let (a40k, a25535, a25536, a65535, a65534, a1, a0) = (Some(0), Some(1), Some(2), Some(3), Some(4), Some(5), Some(6));
+    let big: Vec<Vec<Op>> = vec![
+        vec![a40k, a25535],
+        vec![a25535, a40k],
+        vec![a40k, a25536],
+        vec![a25536, a40k],
+        vec![a40k, a40k],
+        vec![a40k, a40k, a40k],
+        vec![a65535],
+        vec![a65535, a0],
+        vec![a0, a65535],
+        vec![a65535, a1],
+        vec![a1, a65535],
+        vec![None, a65535],
+        vec![a65535, None],
+        vec![None, a65534],
+        vec![a65534, None],
+        vec![None, a65534, None],
+        vec![a65534, a1, a1],
+        vec![None, a40k, None, a25535],
+        vec![None, a40k, a25535],
+        vec![a40k, None, a25535],
+    ];
+    r.counters.add("writer_boundary_compositions", big.len() as u64);
+    for ops in &big {
+        check(ops, &pre_big, "boundary");
+    }
+}
+
 pub fn run_rows(r: &Report) {
     run_count_boundary(r);
+    run_writer_compositions(r);
     let col_types = [t_int(), t_text(), list_of(t_int())];
     let kinds = row_value_kinds();
     let table = TableSpec::owned("ks".into(), "t".into());
@@ -934,7 +1096,7 @@ pub fn run_rows(r: &Report) {
             }
         }
     });
-    r.set_rule("E-ENUM rows. Every column list of length 0..3 over {int, text, list<int>} x every value list of length 0..3 over {int, text, list<int>, a list whose 2nd element is text, null, not-set} (equal arity: all; arity off by one: all-int values) bound as Vec<T>, &[T], Rust tuple, HashMap<String,T> and BTreeMap<&str,T> (right names, one wrong name, one extra name) through SerializedValues::from_serializable: accepted iff every value fits its column and arity/names match; on success element_count() == iter().count() == number of columns and the bytes are the concatenated reference cells. Value-count boundary: {65534, 65535, 65536, 65537, 131072} int values through from_serializable over Vec, slice, HashMap<String,_>, BTreeMap<&str,_> with a matching context of that many columns, from_closure (cell by cell; appending an existing list), and an add_value loop: refused (only above 65535, list unchanged) or element_count() == iter().count() == count on the wire == number bound. distinct_nontrivial = accepted rows verified + boundary cases decided.");
+    r.set_rule("E-ENUM rows. Every column list of length 0..3 over {int, text, list<int>} x every value list of length 0..3 over {int, text, list<int>, a list whose 2nd element is text, null, not-set} (equal arity: all; arity off by one: all-int values) bound as Vec<T>, &[T], Rust tuple, HashMap<String,T> and BTreeMap<&str,T> (right names, one wrong name, one extra name) through SerializedValues::from_serializable: accepted iff every value fits its column and arity/names match; on success element_count() == iter().count() == number of columns and the bytes are the concatenated reference cells. Value-count boundary: {65534, 65535, 65536, 65537, 131072} int values through from_serializable over Vec, slice, HashMap<String,_>, BTreeMap<&str,_> with a matching context of that many columns, from_closure (cell by cell; appending an existing list), and an add_value loop: refused (only above 65535, list unchanged) or element_count() == iter().count() == count on the wire == number bound. RowWriter compositions: every order of {one cell via make_cell_writer, append_serialize_row of a pre-serialized list of 0..3 cells} with at most three cells and three appends, plus 20 boundary sums around 65535 (40000+25535, 40000+25536, 40000+40000, cell+65535, ...), through RowWriter directly (value_count() == encoded cells == bound) and through from_closure (refused only above 65535, else element_count() == iter().count() == count on the wire == bound). distinct_nontrivial = accepted rows verified + boundary cases and compositions decided.");
     r.set_exhaustive(true);
     r.sample(json!({"columns": ["int", "list<int>"], "row": "HashMap<String,_> {c1: [1,2], c0: 7}", "expected": "accepted; 2 cells; bytes = reference cells in column order"}));
     r.sample(json!({"columns": ["int", "text"], "row": "(7, [1, 'x'])", "expected": "refused"}));
